@@ -136,6 +136,8 @@ def prestates(rnd, count, max_inputs, max_gates):
         c = circgen.random_circuit(rnd, rnd.randint(0 if i % 10 == 0 else 1, max_inputs), rnd.randint(0 if i % 10 == 1 else 1, max_gates),
                                    max_arity=3, n_outputs=rnd.randint(0, 3), shuffle_storage=bool(i % 2))
         circgen.add_random_blocks(c, rnd, 2)
+        if i % 6 == 5:
+            c = copy.deepcopy(c)  # gate types equal to, not identical with, the module constants
         out.append((f"seeded[{i}]", c))
     return out
 
